@@ -1428,6 +1428,19 @@ def run_c02(t):
     if got[0] not in ("exp", "exps"):
         return False, {"why": "predict_expectations raised", "out": str(got)}
     gl = [got[1]] if got[0] == "exp" else got[1]
+    twins = None
+    if kind == "lints":
+        # the draw is centred on x.beta and its deviation is LINEAR in alpha (covariance alpha^2 * A_inv): the same history and seed
+        # with alpha = a and alpha = a/4 must deviate from x.beta in the ratio 4 (what "converges to it as alpha tends to 0" rests on)
+        a_big = rng.choice([0.5, 1.0, 2.0])
+        twins = []
+        for al in (a_big, a_big / 4):
+            b2 = dict(base); lp2 = list(base["lp"]); lp2[1] = al; b2["lp"] = tuple(lp2)
+            m2, label2, inv2, _ = drive(b2)
+            g2 = mwh.apply_op(m2, ("pexp", [list(r) for r in Q]), label2, inv2, b2)
+            if g2[0] not in ("exp", "exps"):
+                return False, {"why": "LinTS predict_expectations raised with alpha=%r" % al, "out": str(g2)}
+            twins.append([g2[1]] if g2[0] == "exp" else g2[1])
     unobserved = []
     for a in arms:
         mine = [(r, cx) for dd, r, cx in rows if dd == a]
@@ -1448,6 +1461,13 @@ def run_c02(t):
                 want += alpha * math.sqrt(float(Qa[i] @ Ainv @ Qa[i]))
             g = mwh.bits_f(dict(gl[i])[a])
             tol = 1e-6 * max(1.0, abs(want)) + (1e-5 * math.sqrt(float(Qa[i] @ Ainv @ Qa[i])) if kind == "lints" else 0.0)
+            if twins is not None:
+                e1 = mwh.bits_f(dict(twins[0][i])[a]); e4 = mwh.bits_f(dict(twins[1][i])[a])
+                dev1, dev4 = e1 - want, e4 - want
+                if abs(dev1 - 4 * dev4) > 1e-6 * (1.0 + abs(want) + abs(dev1)):
+                    return False, {"why": "LinTS: the deviation of the draw from x.beta is not linear in alpha: alpha=%r deviates by %r, alpha=%r by %r "
+                                          "(same history, same seed; expected ratio 4)" % (a_big, dev1, a_big / 4, dev4),
+                                   "arm": a, "row": i, "x_beta": want, "l2_lambda": l2, "scale": scale, "d": d, "m": m}
             if abs(g - want) > tol:
                 return False, {"why": "%s expectation of arm %r for context row %d is %r, the ridge regression of its %d observations gives %r" % (
                                    kind, a, i, g, len(mine), want),
